@@ -154,7 +154,9 @@ class SmtLibCommand(namedtuple('SmtLibCommand', ['name', 'args'])):
 
         elif self.name in [smtcmd.DECLARE_FUN, smtcmd.DECLARE_CONST]:
             symbol = self.args[0]
-            type_str = symbol.symbol_type().as_smtlib()
+            # declare-const takes a sort, declare-fun a signature
+            funstyle = (self.name == smtcmd.DECLARE_FUN)
+            type_str = symbol.symbol_type().as_smtlib(funstyle=funstyle)
             outstream.write("(%s %s %s)" % (self.name,
                                             quote(symbol.symbol_name()),
                                             type_str))
@@ -162,7 +164,7 @@ class SmtLibCommand(namedtuple('SmtLibCommand', ['name', 'args'])):
         elif self.name == smtcmd.DEFINE_FUN:
             name = self.args[0]
             params_list = self.args[1]
-            params = " ".join(["(%s %s)" % (v, v.symbol_type().as_smtlib(funstyle=False)) for v in params_list])
+            params = " ".join(["(%s %s)" % (quote(v.symbol_name()), v.symbol_type().as_smtlib(funstyle=False)) for v in params_list])
             rtype = self.args[2]
             expr = self.args[3]
             outstream.write("(%s %s (%s) %s " % (self.name,
